@@ -156,7 +156,8 @@ impl System for Sys {
                         // (with a scrollback limit, rows that were waiting to be trimmed when the
                         // screen was left - input that came through feed(), which never trims - go
                         // when it is shown again: the top of lines() may have been cut, no more)
-                        let cut = cfg.limit.is_some() && post.rows.len() < e.pre.rows.len() && post.rows.len() >= post.size.1 && e.pre.rows.ends_with(&post.rows);
+                        // (only a feed_str call can trim: feed() hands nothing out, so nothing may go)
+                        let cut = !matches!(op.kind, Kind::FeedChars) && cfg.limit.is_some() && post.rows.len() < e.pre.rows.len() && post.rows.len() >= post.size.1 && e.pre.rows.ends_with(&post.rows);
                         if cut {
                             out.count("exits_with_delayed_trim");
                         } else if post.rows != e.pre.rows {
@@ -276,6 +277,9 @@ fn alpha(cfg: &Cfg) -> Vec<Op> {
         Op::new(Inert("\x1b[?4::::::7l".into())),
         Op::new(Inert(format!("\x1b[?{}1049;5l", "0;".repeat(31)))),
         Op::new(Inert(format!("\x1b[?{}47;0;0l", "2;".repeat(31)))),
+        // the switching mode first, another implemented mode behind it: done in the order written
+        c(DecSet(vec![1049, 6])),
+        c(DecSet(vec![1049, 7])),
         // mode lists in which an unimplemented number comes first
         c(DecSet(vec![2004, 1049])),
         c(DecRst(vec![12, 1049])),
@@ -314,7 +318,7 @@ fn alpha_ls(cfg: &Cfg) -> Vec<Op> {
     v
 }
 
-static LS: LockStep = LockStep { property: "C16", probes: true, seed: None };
+static LS: LockStep = LockStep { property: "C16", probes: true, seed: None, via_feed: false };
 /// the core of the excursions over a small alphabet, much deeper: what one visit leaves
 /// behind on the alternate screen (wrap marks, wiped rows, regions, pens) must not be there
 /// on the next one, and nothing of it on the primary
@@ -354,7 +358,7 @@ fn core_part(tier: Tier) -> Part<'static, Sys> {
     }
 }
 
-static LS_REGIONS: LockStep = LockStep { property: "C16", probes: false, seed: None };
+static LS_REGIONS: LockStep = LockStep { property: "C16", probes: false, seed: None, via_feed: false };
 
 /// excursions from and into screens with scroll regions and origin mode: what the program
 /// on the alternate screen does to the margins must not bend the cursor that 1049 restores
@@ -431,7 +435,7 @@ macro_rules! parts {
     }};
 }
 
-static SYS_MODES: LockStep = LockStep { property: "C16", probes: false, seed: None };
+static SYS_MODES: LockStep = LockStep { property: "C16", probes: false, seed: None, via_feed: false };
 
 pub fn run(ctx: &Ctx) -> Report {
     let mut rep = Report::new();
